@@ -41,15 +41,19 @@ func cfgFor(prop string, r *Rng) GenCfg {
 		c.FaultRate, c.FaultKinds, c.NoiseRate = 0.6, []string{"F1", "F2"}, 0.05
 	case "C02":
 		f["resource"], f["attachment"], f["storage"] = 10, 2, 1
+		c.ScnRate = 0.12
 	case "C05":
 		f["copy"], f["storage"] = 10, 1
+		c.ScnRate = 0.15
 	case "C20":
 		f["container"], f["storage"] = 12, 1
 		c.BigRate = 0.25
 	case "C48":
 		f["event"], f["resource"], f["attachment"], f["storage"] = 4, 5, 3, 1
+		c.ScnRate = 0.15
 	case "C49":
 		f["attachment"], f["resource"] = 10, 3
+		c.ScnRate = 0.12
 	case "C25":
 		f["capability"], f["storage"], f["resource"] = 12, 2, 1
 		c.BigRate = 0.25
@@ -58,6 +62,7 @@ func cfgFor(prop string, r *Rng) GenCfg {
 	default: // everything at once: C01, C31, C33, C34 and the shared sweeps
 		f["storage"], f["resource"], f["container"], f["copy"], f["attachment"], f["event"], f["control"] = 4, 4, 4, 2, 2, 1, 1
 		f["capability"], f["contract"], f["hostsvc"] = 3, 2, 2
+		c.ScnRate = 0.3
 	}
 	// atree validation (a debug configuration, quadratic in container size) only on small-value plans, and only sometimes
 	if c.BigRate > 0.1 || !r.Chance(0.4) {
